@@ -194,8 +194,18 @@ class Prop:
             hist_fail = (early[0] if early else None) or NH.consistency(tree, objs, sh, errors)
         else:
             tree, U = B.build(desc)
+        # results handed out by queries are caller-owned (see nav_hist.poison_results): mutate every returned list on
+        # another tree of the same description (t0) and on this tree, then ask everything again
+        pfail = None
+        if desc.get("poison", True):
+            t0, U0 = NH.build_hist(desc)[:2] if "hist" in desc else B.build(desc)
+            kinds = tuple(desc["query"]) + ("zz",)
+            pfail = NH.poison_results(t0, True, kinds) or NH.poison_results(tree, True, kinds)
         obs, fail, nodes, coq = self._observe(tree, U, desc)
-        fail = hist_fail or fail
+        if desc.get("poison", True) and not pfail:
+            f0 = self._observe(t0, U0, desc)[1]
+            pfail = f0 and f"after mutating the lists handed out by the queries of another tree: {f0}"
+        fail = hist_fail or pfail or (fail and (f"(after mutating the lists handed out by the queries) {fail}" if desc.get("poison", True) else fail))
         kinds_in_sibs = [len({c.kind for c in (p._children or [])}) for p in [tree._root] + nodes]
         sizes = [len(p._children or []) for p in [tree._root] + nodes]
         return Case(desc=desc, coq_input=coq, impl_obs=obs, oracle_fail=fail,
